@@ -126,7 +126,7 @@ Delta(h) == h.c
 Vector == [op |-> stim.op,
            init |-> [j \in 1..Len(stim.idx) |-> Val(stim.idx[j])], dst0 |-> Dst0(stim.env),
            status |-> s.status, errs |-> s.errs, ost |-> s.ost, dst |-> s.dst,
-           heap |-> Delta(s.heap), nheap |-> s.heap.n]
+           heap |-> Delta(s.heap), nheap |-> s.heap.n, nops |-> s.nops]
 
 Emit == (phase = "run" /\ s.status \in {"done", "error"}) => CSVWrite("%1$s", <<ToJson(Vector)>>, OutFile)
 ASSUME JsonSerialize(BaseFile, [heap |-> Heap0, nfixed |-> NFixed])
@@ -134,5 +134,5 @@ ASSUME JsonSerialize(BaseFile, [heap |-> Heap0, nfixed |-> NFixed])
 \* design-level invariants, evaluated in every state of every behaviour
 Inv == /\ StackBounded(s) /\ DictStackBounded(s) /\ DepthBounded(s) /\ DictStackBase(s)
        /\ s.status = "error" => s.errs # {}
-       /\ s.nops <= 3
+       /\ s.nops <= 4
 =============================================================================
